@@ -98,7 +98,7 @@ def run_case(rng, idx, tier, lane, ctx):
         return {"status": "violated", "sample": spec, "counters": counters,
                 "witnesses": [{"what": "model construction / initial values raised", "error": short_exc(e), "tb": tb_tail(e)}]}
     for exact in (True, False):
-        cfg = {"exact": exact, "n": rng.randint(1, 3), "seed": np_seed(rng), "pre_tau": None, "epsilon": None}
+        cfg = {"exact": exact, "n": rng.randint(1, 3), "seed": np_seed(rng), "pre_tau": None, "epsilon": None, "refused_first": rng.random() < 0.2}
         if not exact:
             r = rng.random()
             if r < 0.35:
@@ -110,6 +110,9 @@ def run_case(rng, idx, tier, lane, ctx):
         m.pre_tau = cfg["pre_tau"]
         m._epsilon = cfg["epsilon"] if cfg["epsilon"] is not None else 0.03
         hostile = Hostile(np_seed(rng), prob=rng.choice([0.05, 0.1, 0.2])) if lane == "hostile" else None
+        if cfg["refused_first"]:
+            import random as _random
+            cfg["refused_first"] = S.refused_initial_assignment(_random.Random(cfg["seed"]), m, x0, 0.0, counters)
         np.random.seed(cfg["seed"])
         probe = SimProbe(hostile=hostile)
         try:
